@@ -166,7 +166,7 @@ Proof. intros Hin g ps phi gs' HL Hinc Hlen Hs d sh. subst d sh.
   (eexists; eexists; split; [reflexivity | split; [reflexivity | intros Hg]]);
   match goal with
   | |- marginal_out _ _ ?dest (pulse _ _ ?cs _ _ _ _) = _ =>
-      let d := eval compute in (List.length cs) in
+      let d := eval cbn [List.length] in (List.length cs) in
       apply (shared_pulse_preserves g HL Hinc d dest cs phi gs'); convex_side; try exact Hg
   end. Qed.
 
@@ -195,7 +195,7 @@ Proof. intros Hin g phi HL Hinc d sh Hphi. subst d sh.
   in_table Hin; unfold_desc; f_equal;
   match goal with
   | |- pulse _ _ ?cs ?dest _ _ _ = _ =>
-      let d := eval compute in (List.length cs) in
+      let d := eval cbn [List.length] in (List.length cs) in
       apply (shared_pulse_unit g HL Hinc d dest cs phi); unit_side
   end. Qed.
 
@@ -213,10 +213,13 @@ Proof. intros Hin g ps phi gs' HL Hinc Hlen Hs d sh Hphi Hgs. subst d sh.
   unfold run_desc. rewrite Hrej. clear Hrej.
   in_table Hin; cbn [pd_dim pd_args mkp Nat.sub] in Hlen, Hgs;
   try (destruct Hlen as [Hlen | [Hlen | Hlen]]; try discriminate Hlen);
-  try (simplex_hyps ps Hlen Hs); unfold_desc;
+  match type of Hlen with
+  | List.length _ = _ => simplex_hyps ps Hlen Hs
+  | _ => clear Hlen
+  end; unfold_desc;
   (eexists; split; [reflexivity|]);
   match goal with
   | |- marginal_out _ _ _ (new_pop _ _ ?cs _ _) = _ =>
-      let d := eval compute in (List.length cs) in
+      let d := eval cbn [List.length] in (List.length cs) in
       apply (shared_new_pop_exact g HL Hinc d cs phi gs'); convex_side; try assumption
   end. Qed.
